@@ -1,11 +1,15 @@
 (* C10 - Any destruction order is safe; dead inputs are reported, never read.
-   PARTIAL.  Proved: handles of a destroyed signal are inactive and its table empty (signal layer); a PropertyNode whose
-   input is gone raises PropertyDestroyedError instead of reading it and the evaluation leaves the bound property alone
-   (eval on a leaf without target).  The link invariant of the model ("no leaf refers to a property that is gone")
-   is evaluated by PropCheck.check_links on every world reached by the generated destruction orders and the real
-   library runs the same orders under ASan/UBSan: both are tests.  See DESIGN.md 6/C10. *)
+   Proved on the models: handles of a destroyed signal are inactive and its table empty (signal layer); a PropertyNode whose
+   input is gone raises PropertyDestroyedError instead of reading it and the evaluation leaves the bound property alone;
+   and - the link invariant, coq/PropLink*.v - in EVERY world reached by a legal history of property-layer operations (any
+   creation, binding, rebinding, reset, move and destruction order, any expressions, observers that write or reset) no
+   expression leaf of a live binding refers to a property that is gone, every such leaf holds live subscriptions on the
+   changed / moved / destroyed signals of exactly the property it refers to, evaluation never reads a missing property, and
+   no subscription of a destroyed binding is left in any signal.  Real memory is observed (ASan/UBSan on the same orders);
+   destroying an object from inside its own notification is outside the quantifier (the model answers "unmodelled").
+   See DESIGN.md 6/C10. *)
 From KDB Require Import Util GenIdx GenIdxProofs SigDefs SigInv SigTheorems SigEmit SigDisc.
-From KDB Require PropDefs PropProofs.
+From KDB Require PropDefs PropProofs PropFlags PropLink PropLinkTheorems.
 
 Theorem C10_destroyed_signal_handles_inactive :
   forall w s i m, winv w -> lookup (w_sigs w) s = Some (Some i) -> get_impl w i = Some m -> i_emitting m = false ->
@@ -30,3 +34,61 @@ Theorem C10_failed_evaluation_keeps_value :
     snd (PropDefs.binding_evaluate fn rtl R w b) = Some e.
 Proof. exact PropProofs.failed_evaluation_keeps_value. Qed.
 Print Assumptions C10_failed_evaluation_keeps_value.
+
+(* ---- the link invariant (coq/PropLink.v: pinv) in every legal history ---- *)
+Theorem C10_links_hold_in_every_legal_history :
+  forall fn rtl fuel ops, PropLinkTheorems.run_ok fn rtl fuel PropDefs.world0 ops -> PropLink.pinv (PropDefs.run fn rtl fuel ops).
+Proof. exact PropLinkTheorems.reachable_pinv. Qed.
+Print Assumptions C10_links_hold_in_every_legal_history.
+
+(* one step, from any world that satisfies it (the induction step; every operation, every outcome except "not a legal program") *)
+Theorem C10_links_preserved_by_every_operation :
+  forall fn rtl fuel w o w' e,
+    PropLink.pinv w -> PropFlags.NOEMIT w -> PropDefs.step1 fn rtl fuel w o = (w', e) -> PropLink.okx e -> PropLink.pinv w'.
+Proof. exact PropLinkTheorems.step1_pinv. Qed.
+Print Assumptions C10_links_preserved_by_every_operation.
+
+(* no leaf of a live binding refers to a property that is gone; it is subscribed to that property's three signals *)
+Theorem C10_leaf_target_exists :
+  forall w b x lf p,
+    PropLink.pinv w -> PropDefs.get_bind w b = Some x -> In lf (PropLink.leaves (PropDefs.b_root x)) -> PropLink.lf_tg lf = Some p ->
+    exists pr, lookup (PropDefs.w_props w) p = Some pr /\
+      PropDefs.pr_changed pr = Some (PropDefs.h_table (PropLink.lf_hc lf)) /\ PropLink.live w (PropLink.lf_hc lf) (PropDefs.SNode b (PropLink.lf_id lf)) /\
+      PropDefs.pr_moved pr = Some (PropDefs.h_table (PropLink.lf_hm lf)) /\ PropLink.live w (PropLink.lf_hm lf) (PropDefs.SNode b (PropLink.lf_id lf)) /\
+      PropDefs.pr_destroyed pr = Some (PropDefs.h_table (PropLink.lf_hd lf)) /\ PropLink.live w (PropLink.lf_hd lf) (PropDefs.SNode b (PropLink.lf_id lf)).
+Proof. exact PropLinkTheorems.leaf_target_exists. Qed.
+Print Assumptions C10_leaf_target_exists.
+
+(* evaluating the tree of a live binding never reads a missing property (the model's "dangling pointer" outcome) *)
+Theorem C10_evaluation_never_dangles :
+  forall fn rtl w b x,
+    PropLink.pinv w -> PropDefs.get_bind w b = Some x ->
+    snd (fst (PropDefs.eval fn rtl (PropDefs.values w) (PropDefs.b_root x))) <> inr PropDefs.PxBad.
+Proof. exact PropLinkTheorems.evaluation_never_dangles. Qed.
+Print Assumptions C10_evaluation_never_dangles.
+
+(* every node subscription in any signal belongs to a leaf of a LIVE binding: nothing is ever called on a destroyed binding *)
+Theorem C10_no_orphan_subscription :
+  forall w t pos ser b l,
+    PropLink.pinv w -> PropLink.slot_at w t pos ser (PropDefs.SNode b l) ->
+    exists x lf, PropDefs.get_bind w b = Some x /\ In lf (PropLink.leaves (PropDefs.b_root x)) /\ PropLink.lf_id lf = l /\
+                 In {| PropDefs.h_table := t; PropDefs.h_pos := pos; PropDefs.h_serial := ser |} (PropLink.lf_handles lf).
+Proof. exact PropLinkTheorems.no_orphan_subscription. Qed.
+Print Assumptions C10_no_orphan_subscription.
+
+(* non-vacuity: a legal history with bindings over shared inputs, an observer that resets, a user-held binding, destruction of an
+   input, of a bound property and of an evaluator in "wrong" orders: legal (run_okb), the invariant's executable form holds at
+   the end, and the binding whose input died reports PropertyDestroyedError on its next evaluation *)
+Example C10_example :
+  let fn := fun (f : nat) (l : list Z) => Some (fold_right Z.add 0%Z l) in
+  let ops := [PropDefs.PNew 0 1%Z; PropDefs.PNew 1 2%Z; PropDefs.BevNew 0;
+              PropDefs.PBind 2 (PropDefs.EOp2 0 (PropDefs.EProp 0) (PropDefs.EProp 1)) PropDefs.MImmediate;
+              PropDefs.PBind 3 (PropDefs.EOp1 1 (PropDefs.EProp 2)) (PropDefs.MEvaluator 0);
+              PropDefs.BHold 0 (PropDefs.EOp2 2 (PropDefs.EProp 0) (PropDefs.EProp 3)) PropDefs.MImmediate;
+              PropDefs.PObserve 0 PropDefs.KChanged 7 0 (Some (true, 3));
+              PropDefs.PSet 0 5%Z PropDefs.WSet; PropDefs.PDel 1; PropDefs.PSet 0 6%Z PropDefs.WSet; PropDefs.PDel 2; PropDefs.BevDel 0;
+              PropDefs.PDel 0; PropDefs.BHoldDel 0; PropDefs.PGet 3] in
+  (PropLinkTheorems.run_okb fn true 6 PropDefs.world0 ops, forallb (fun b => b) (PropLink.pinv_b (PropDefs.run fn true 6 ops)),
+   existsb (fun e => match e with PropDefs.EvDone (Some PropDefs.PxDestroyed) => true | _ => false end) (PropDefs.w_trace (PropDefs.run fn true 6 ops)))
+  = (true, true, true).
+Proof. vm_compute. reflexivity. Qed.
